@@ -63,6 +63,7 @@ type dtEval struct {
 	root      ast.Node
 	keep      map[string]bool // identifiers the row's declared atoms mention: never expanded
 	freshMemo map[[2]token.Pos]bool
+	constMemo map[types.Object]ast.Expr
 	defMemo   map[types.Object]ast.Expr
 }
 
@@ -81,6 +82,9 @@ func (ev *dtEval) canon(x ast.Expr, fr *dtFrame) string {
 		}
 		if o != nil && o == fr.recv {
 			return "$"
+		}
+		if init := ev.pkgConst(o); init != nil && !ev.keep[v.Name] {
+			return ev.canon(init, fr)
 		}
 		if d, paren := ev.aliasOf(v, fr); d != nil {
 			if paren {
@@ -114,6 +118,80 @@ func (ev *dtEval) canon(x ast.Expr, fr *dtFrame) string {
 		return v.Op.String() + ev.canon(v.X, fr)
 	}
 	return an.ExprString(x)
+}
+
+// pkgConst: o is a package-level variable of a workspace package that has an initialiser and that nothing assigns or takes
+// the address of (a constant a maintainer hoisted out of a function): its initialiser.
+func (ev *dtEval) pkgConst(o types.Object) ast.Expr {
+	v, ok := o.(*types.Var)
+	if !ok || v.IsField() || v.Pkg() == nil || v.Parent() != v.Pkg().Scope() {
+		return nil
+	}
+	if ev.constMemo == nil {
+		ev.constMemo = map[types.Object]ast.Expr{}
+	}
+	if init, seen := ev.constMemo[o]; seen {
+		return init
+	}
+	ev.constMemo[o] = nil
+	pk := ev.e.Ix.PkgOf(v.Pkg())
+	if pk == nil {
+		return nil
+	}
+	var init ast.Expr
+	for _, f := range pk.Files {
+		for _, d := range f.Decls {
+			gd, isGen := d.(*ast.GenDecl)
+			if !isGen || gd.Tok != token.VAR {
+				continue
+			}
+			for _, sp := range gd.Specs {
+				vs, isVS := sp.(*ast.ValueSpec)
+				if !isVS || len(vs.Names) != len(vs.Values) {
+					continue
+				}
+				for i, nm := range vs.Names {
+					if pk.Info.Defs[nm] == o {
+						init = vs.Values[i]
+					}
+				}
+			}
+		}
+	}
+	if init == nil {
+		return nil
+	}
+	// only constructor calls of the value library (tla.MakeString("cmd"), tla.MakeNumber(1)): nothing stateful
+	call, isCall := an.Unparen(init).(*ast.CallExpr)
+	if !isCall {
+		return nil
+	}
+	if fn := an.CalleeFunc(pk.Info, call); fn == nil || fn.Pkg() == nil || fn.Pkg().Path() != an.PkgTLA || !strings.HasPrefix(fn.Name(), "Make") {
+		return nil
+	}
+	assigned := false
+	for _, f := range pk.Files {
+		ast.Inspect(f, func(m ast.Node) bool {
+			switch x := m.(type) {
+			case *ast.AssignStmt:
+				for _, l := range x.Lhs {
+					if id, isId := an.Unparen(l).(*ast.Ident); isId && pk.Info.Uses[id] == o {
+						assigned = true
+					}
+				}
+			case *ast.UnaryExpr:
+				if id, isId := an.Unparen(x.X).(*ast.Ident); isId && x.Op == token.AND && pk.Info.Uses[id] == o {
+					assigned = true
+				}
+			}
+			return !assigned
+		})
+	}
+	if assigned {
+		return nil
+	}
+	ev.constMemo[o] = init
+	return init
 }
 
 // isRecvField: x is a selector chain of fields rooted at the outermost receiver.
@@ -156,6 +234,16 @@ func (ev *dtEval) aliasFresh(def ast.Expr, use *ast.Ident, fr *dtFrame) bool {
 			init, cond = x.Init, x.Cond
 		case *ast.SwitchStmt:
 			init, cond = x.Init, x.Tag
+			if x.Tag == nil && init != nil && init.Pos() <= def.Pos() && def.End() <= init.End() {
+				// a condition switch: the conditions are the case expressions
+				for _, cs := range x.Body.List {
+					for _, ce := range cs.(*ast.CaseClause).List {
+						if ce.Pos() <= use.Pos() && use.End() <= ce.End() {
+							res = true
+						}
+					}
+				}
+			}
 		}
 		if init != nil && cond != nil && init.Pos() <= def.Pos() && def.End() <= init.End() && cond.Pos() <= use.Pos() && use.End() <= cond.End() {
 			res = true
